@@ -6,7 +6,7 @@ LEVEL = "proof"
 
 
 def components():
-    return [comps_dflt.DfltModel()]
+    return [comps_dflt.DfltModel(), comps_dflt.WhenResModel()]
 
 
 def oracles_():
@@ -14,6 +14,8 @@ def oracles_():
 
 
 TRUSTED = [
+    "ocaml/run_dflt.ml part whenres (keeps the world, the default flags and the was-true marks between validations, creates "
+    "the missing defaults before a run; parses the conditions) + comps_dflt.WhenResModel (leaf modules, XPath text of a condition)",
     "ocaml/tree_io.ml + ocaml/run_dflt.ml (read / print lyx dumps incl. the new flag, render change lists and printed node "
     "sets, evaluate the executable theorem hypotheses on every tree), tools/treeenc.py (yanggen module -> schema line with "
     "sids in lys_getnext order and the choice / case chains), tools/yanggen.py + tools/props/comps_dflt.py (modules, "
@@ -83,8 +85,8 @@ MANIFEST = {
             "document order, read with independent readers (expat; python json incl. the RFC 7952 metadata arrays of leaf-lists) - "
             "the printed nodes + default tags must be identical; the model also evaluates the theorem hypotheses and conclusions (normal form reached, change list "
             "replays to the tree after, flags consistent and sound, canonical input) on every one of these trees. The API oracle "
-            "validate-idem checks the same laws through lyd_diff_apply_all. `when` is covered at ORACLE level only (not in the "
-            "Coq model): oracle when-defaults generates modules whose default leaves, NP / presence containers, default "
+            "validate-idem checks the same laws through lyd_diff_apply_all. `when`: the resolution loop has its own model and theorems (WhenRes.v, component "
+            "whenres, see the note); where defaults must exist under when is checked at ORACLE level: oracle when-defaults generates modules whose default leaves, NP / presence containers, default "
             "leaf-lists, lists, choices, cases (incl. the default case and a nested choice), uses and augments carry when "
             "conditions over sibling leaves (../sw = 'on', count(../ll) > 1, not(../x); one when reading another conditional "
             "node), runs histories validate -> flip a controlling leaf -> validate -> flip back -> validate with explicit "
@@ -99,13 +101,26 @@ MANIFEST = {
             "that the second validation does not fail, exactness of the change list "
             "(checked at run time by replaying the model's change list; false for vdiff-np-container; libyang's own diff "
             "additionally fails with LY_EINVAL in finding vdiff-np-recreate and is wrong for duplicate-instance lists, "
-            "vdiff-dupinst). when: no theorem - the Coq model has no when; the statement 'defaults exactly where the when holds' "
+            "vdiff-dupinst). when: Implicit.v has no when; the statement 'defaults exactly where the when holds' "
             "is checked by the oracle when-defaults against a python reference on a fixed family of modules (XPath limited to "
             "three condition shapes; lyd_validate_module is driven through impl/t_valid.c, which returns no change set); two deviations "
-            "found there are listed (when-stale-dependency - fixed by 7b3176d, now expected by the reference -, when-autodel-default-case) - they are also why an abstract "
-            "when_ok : sid -> forest -> bool threaded through the Coq model was not attempted: libyang's result depends on the "
-            "ORDER in which conditions are resolved and on LYD_WHEN_TRUE flags of earlier validations, so 'the' forest the "
-            "condition is evaluated on is not a function of the input tree. Not modelled: must / unique / leafref, several modules (with data of "
+            "found there are listed (when-stale-dependency - fixed by 7b3176d, now expected by the reference -, when-autodel-default-case) - Since 7b3176d the resolution of the when "
+            "conditions no longer depends on flags of earlier validations, and that step is modelled and proved on its own: "
+            "coq/WhenRes.v is the fixpoint of lyd_validate_unres_when on a flat abstraction (world = present (node, value) "
+            "entries; set of queued (node, was-true-before); a condition is postponed while a node it reads is queued, true -> "
+            "leaves the set, false -> deleted if it was true before, else invalid; passes from the end of the set while it "
+            "shrinks). Proved for conditions that read only their declared dependencies, acyclic by a rank: the loop needs at "
+            "most as many passes as there are queued nodes and never stops with unresolved nodes "
+            "(C07_when_resolution_terminates), the resulting tree - or the rejection - does not depend on the order of the set "
+            "(C07_when_resolution_order_independent, via: a successful run ends in the unique stable solution, and if a stable "
+            "solution exists every order finds it), resolving the survivors again changes nothing "
+            "(C07_when_resolution_idempotent); C07_when_resolution_generic states it for arbitrary condition functions. Tie: "
+            "component whenres runs generated dependency graphs (leaves with defaults and whens over presence / value of "
+            "smaller-numbered leaves, and / or / not) x edit histories through lyd_new_path / lyd_free_tree / lyd_validate_all "
+            "and the extracted wrun: same surviving nodes, values, default flags, same rejections. NOT in WhenRes.v: the "
+            "subtree of a deleted node, choices / cases (finding when-autodel-default-case), the interplay with "
+            "lyd_new_implicit beyond 'missing defaults are created first and queued as was-true' (done by the OCaml runner), "
+            "the connection of this layer with Implicit.validate_all (no combined theorem). Not modelled: must / unique / leafref, several modules (with data of "
             "another module in front libyang inserts a new top-level default node before older siblings of its own module - seen "
             "once, outside Tree.v), LYD_VALIDATE_NO_STATE / NO_DEFAULTS / MULTI_ERROR, the state of the tree after a failed "
             "validation, LYD_PRINT_KEEPEMPTYCONT in the theorem (tied by the correspondence run only), the LYB printer.",
